@@ -6,6 +6,7 @@ import LC.Spec.LexSpec
 import LC.Model.V1Tok
 import LC.Model.V1Search
 import LC.Model.V1Glue
+import LC.Model.V1Uniq
 import LC.Model.V2Env
 /- C18 drivers: `lex` (impl-level model over the regenerated table), `chunk` (ChunkIterator). -/
 namespace Driver.Lex
@@ -73,5 +74,21 @@ def runV1Exact (unknown value : List UInt8) : String :=
         let xy := LC.V1Glue.exactBytes ab.1 ab.2 lohi tr
         s!"{xy.1}:{xy.2 - xy.1}"
       | none => "PANIC"))
+
+/-- stage `v1uniq`: `Matches.uniquify` on a list of matches `offset,extent;…` (already in rank
+order; names and confidences play no part): the indices of the matches kept -/
+def runV1Uniq (field : String) : String :=
+  let parts := if field.isEmpty then [] else field.splitOn ";"
+  let parse (p : String) : Option (Nat × Nat) :=
+    match p.splitOn "," with
+    | [a, b] => match a.toNat?, b.toNat? with
+      | some x, some y => some (x, y)
+      | _, _ => none
+    | _ => none
+  match parts.mapM parse with
+  | none => "bad-record"
+  | some l =>
+    let ms : List LC.V1Glue.M := (List.range l.length).zip l |>.map (fun (i, oe) => { name := toString i, conf := 0, offset := oe.1, extent := oe.2 })
+    joinWith " " ((LC.V1Glue.uniquify ms).map (·.name))
 
 end Driver.V1
